@@ -85,6 +85,23 @@ pub struct Session {
     close_notify: Arc<Notify>,
 }
 
+/// Append `len` bytes of padding to `buf` as waste frames. A frame carries at
+/// most 65535 payload bytes, so larger paddings are emitted as several frames.
+fn put_waste_frames(buf: &mut BytesMut, mut len: usize) {
+    use bytes::BufMut;
+    loop {
+        let chunk = len.min(u16::MAX as usize);
+        buf.put_u8(Command::Waste as u8);
+        buf.put_u32(0); // stream_id = 0
+        buf.put_u16(chunk as u16);
+        buf.put_bytes(0, chunk); // padding data (zeros)
+        len -= chunk;
+        if len == 0 {
+            break;
+        }
+    }
+}
+
 impl Session {
     async fn handle_io_error(&self, context: &str, error: std::io::Error) -> AnyTlsError {
         #[cfg(feature = "verif")]
@@ -944,8 +961,7 @@ impl Session {
     /// Write buffer to connection with padding applied
     async fn write_with_padding(&self, mut buffer: BytesMut) -> Result<()> {
         use crate::padding::CHECK_MARK;
-        use crate::protocol::{Command, HEADER_OVERHEAD_SIZE};
-        use bytes::BufMut;
+        use crate::protocol::HEADER_OVERHEAD_SIZE;
 
         if !self.send_padding {
             // No padding, write directly
@@ -1060,16 +1076,8 @@ impl Session {
                 let padding_len = size.saturating_sub(remain_payload_len + HEADER_OVERHEAD_SIZE);
 
                 if padding_len > 0 {
-                    // Create padding frame (cmdWaste)
-                    let mut padding_frame =
-                        BytesMut::with_capacity(HEADER_OVERHEAD_SIZE + padding_len);
-                    padding_frame.put_u8(Command::Waste as u8);
-                    padding_frame.put_u32(0); // stream_id = 0
-                    padding_frame.put_u16(padding_len as u16);
-                    padding_frame.put_slice(&vec![0u8; padding_len]); // padding data (zeros)
-
-                    // Combine payload and padding
-                    buffer.put_slice(&padding_frame);
+                    // Append padding (cmdWaste) after the payload
+                    put_waste_frames(&mut buffer, padding_len);
                 }
 
                 if let Err(e) = writer.write_all(&buffer).await {
@@ -1079,10 +1087,7 @@ impl Session {
             } else {
                 // This packet is all padding
                 let mut padding_frame = BytesMut::with_capacity(HEADER_OVERHEAD_SIZE + size);
-                padding_frame.put_u8(Command::Waste as u8);
-                padding_frame.put_u32(0); // stream_id = 0
-                padding_frame.put_u16(size as u16);
-                padding_frame.put_slice(&vec![0u8; size]); // padding data (zeros)
+                put_waste_frames(&mut padding_frame, size);
 
                 if let Err(e) = writer.write_all(&padding_frame).await {
                     return Err(self.handle_io_error("write_padding_frame_only", e).await);
